@@ -121,6 +121,7 @@ impl <N: NumericOps> ArrayLinalgProducts<N> for Array<N> {
         } else if self.ndim()? == 1 && other.ndim()? == 1 {
             self.vdot(other)
         } else if self.ndim()? == 2 && other.ndim()? == 2 {
+            self.shapes_align(0, &other.get_shape()?, 1)?;
             self.matmul(other)
         } else if self.ndim()? == 1 || other.ndim()? == 1 {
             Self::dot_1d(self, other)
@@ -166,7 +167,7 @@ impl <N: NumericOps> ArrayLinalgProducts<N> for Array<N> {
             else { self.shapes_align(self.ndim()? - 1, &other.get_shape()?, 0)?; }
             Self::matmul_1d_nd(self, other)
         } else if self.ndim()? == 2 && other.ndim()? == 2 {
-            self.shapes_align(0, &other.get_shape()?, 1)?;
+            self.shapes_align(1, &other.get_shape()?, 0)?;
             Self::matmul_iterate(self, other)
         } else {
             Self::matmul_nd(self, other)
